@@ -406,10 +406,13 @@ func breakRef(ref, kind string) string {
 		if i == 0 {
 			return ""
 		}
-		if i < 0 {
-			return "nowhere/" + ref
+		// rename the file itself (a directory prefix could be cancelled by a following "../")
+		file, frag := ref, ""
+		if i >= 0 {
+			file, frag = ref[:i], ref[i:]
 		}
-		return "nowhere/" + ref[:i] + ref[i:]
+		j := strings.LastIndex(file, "/")
+		return file[:j+1] + "nowhere-" + file[j+1:] + frag
 	case "missing-pointer":
 		if i < 0 {
 			return ""
